@@ -14,4 +14,6 @@ func verifRange[K comparable, V any](m *Map[K, V], f func(key K, value V) bool) 
 }
 
 // verifMilvusClient never provides a client unless built with the verif tag.
-func verifMilvusClient(ctx context.Context, address, token, database string) client.Client { return nil }
+func verifMilvusClient(ctx context.Context, address, token, database string) client.Client {
+	return nil
+}
